@@ -76,6 +76,7 @@ type gen struct {
 	labels               map[string]bool
 	leafOnly, noTypename int
 	noNamed              int // > 0: no named fragments (spreads) are generated
+	noFrags              int // > 0: no fragments at all (inside the type fragments of a node root while their classes are gated)
 	rootArgs             int // > 0 while the arguments of a root field are generated (they always stay in a root step)
 	fragsByType          map[string][]fragInfo
 }
@@ -270,7 +271,7 @@ func (g *gen) rootSelection(root *ast.Definition) string {
 	if len(parts) == 0 {
 		return ""
 	}
-	if g.o.Fragments && len(parts) >= 1 && g.chance(8, "rootfrag") {
+	if g.o.Fragments && len(parts) >= 1 && len(parts) == len(sc.keys) && g.chance(8, "rootfrag") {
 		// root fields inside an inline fragment on the root type (with or without type condition)
 		k := g.pick(len(parts), "rootfragfrom")
 		inner := strings.Join(parts[k:], " ")
@@ -323,6 +324,11 @@ func (g *gen) nodeRoot(sc *scope) string {
 	if g.o.Avoid["op.nodeRootNamedFragment"] {
 		g.noNamed++
 		defer func() { g.noNamed-- }()
+	}
+	if g.o.Avoid["op.helperLostToFragmentScrub"] || g.o.Avoid["op.abstractScopeNestedFragments"] {
+		// a fragment below the type fragment of a node root falls into the classes of those open findings
+		g.noFrags++
+		defer func() { g.noFrags-- }()
 	}
 	for _, m := range members {
 		// prefer the id's own type
@@ -381,14 +387,16 @@ func (g *gen) selections(def *ast.Definition, depth int, sc *scope) string {
 		pts := append([]*ast.Definition{}, g.s.PossibleTypes[def.Name]...)
 		sort.Slice(pts, func(i, j int) bool { return pts[i].Name < pts[j].Name })
 		// often no type fragments at all: the interface's own fields, spread by the planner over the implementations
-		if def.Kind == ast.Union || !g.chance(40, "plainabstract") {
+		if g.noFrags > 0 && def.Kind != ast.Union {
+			// no type fragments wanted here
+		} else if def.Kind == ast.Union || !g.chance(40, "plainabstract") {
 			for _, pt := range pts {
 				if g.chance(55, "ptfrag") {
 					fragTypes = append(fragTypes, pt)
 				}
 			}
 		}
-	} else if g.o.Fragments && depth <= g.o.MaxDepth && g.chance(12, "selfinline") {
+	} else if g.o.Fragments && g.noFrags == 0 && depth <= g.o.MaxDepth && g.chance(12, "selfinline") {
 		selfInline = true
 		selfNoCond = g.chance(50, "nocond")
 	}
@@ -458,6 +466,15 @@ func (g *gen) selections(def *ast.Definition, depth int, sc *scope) string {
 		}
 		if _, ok := sc.keys["__typename"]; !ok {
 			sc.keys["__typename"] = "__typename"
+			return "__typename"
+		}
+		if g.o.Avoid["op.duplicateKeyDifferentConditions"] || g.o.Avoid["op.duplicateResponseKey"] {
+			// __typename is selected already in this response map (outside this fragment): a fresh key instead of a repeat
+			k := fmt.Sprintf("t%d", len(sc.keys))
+			if _, used := sc.keys[k]; !used {
+				sc.keys[k] = "__typename"
+				return k + ": __typename"
+			}
 		}
 		return "__typename"
 	}
@@ -489,6 +506,9 @@ func (g *gen) fragmentOn(def *ast.Definition, depth int, sc *scope) string {
 		fi := g.fragsByType[def.Name][g.pick(len(g.fragsByType[def.Name]), "whichfrag")]
 		ok := true
 		for k, sig := range fi.keys {
+			if sc.noHelpers && (sig == "id" || sig == "__typename" || k == "id" || k == "__typename") {
+				ok = false // the fragment selects a helper field, this scope must not (closed gates)
+			}
 			if prev, used := sc.keys[k]; used && prev != sig {
 				ok = false
 			}
